@@ -185,6 +185,9 @@ def run(ctx, R, tier):
                     if be is not None:
                         c03.silent_exit(F, R, pb, be[1], 'B.C10.starve', 'silent', what='starving decoder')
         window_rule(F, R)
+        # an error of Decoder::seek is an error of the stream: it is propagated like a decode error (the C18 rule)
+        from .c18 import seek_landing
+        seek_landing(F, R)
         # "playback continues from where it stopped to within a frame": the loop that steps through source frames
         # (`while fractional_position >= 1.0 { fractional_position -= 1.0; pop }`) is left only through its own guard, so
         # the fraction is below one after it whatever the ring buffer held; and every iteration takes one off
